@@ -162,7 +162,7 @@ type c02Case struct {
 
 func (st *c02Stack) smtpSend(cs *c02Case) (replies []string, err error) {
 	var out bytes.Buffer
-	fmt.Fprintf(&out, "HELO %s\r\nMAIL FROM:<%s>\r\nRCPT TO:<%s@%s>\r\nDATA\r\n", c02Helo, c02Sender, cs.mb, c02Domain)
+	fmt.Fprintf(&out, "HELO %s\r\nMAIL FROM:<%s>\r\nRCPT TO:<%s@%s>\r\nDATA\r\n", c02HeloFor(cs.mb), c02Sender, cs.mb, c02Domain)
 	out.Write(cs.wire)
 	out.WriteString(cs.tail)
 	id := int(atomic.AddInt64(&st.sid, 1))
@@ -197,8 +197,21 @@ func cutLine(b []byte) (string, []byte, bool) {
 	return string(b[:i]), b[i+2:], true
 }
 
+// c02HeloFor: the HELO name used for a case, a function of the mailbox so that every part of the harness agrees; a third
+// of the cases use a name long enough to push the trace headers well beyond 512 bytes.
+func c02HeloFor(mb string) string {
+	n := 0
+	for _, ch := range []byte(mb) {
+		n += int(ch)
+	}
+	if n%3 == 0 {
+		return strings.Repeat("h", 560) + "." + c02Helo
+	}
+	return c02Helo
+}
+
 func tracePrefix(mb string) string {
-	return fmt.Sprintf("Return-Path: <%s>\r\nReceived: from %s ([pipe]) by %s\r\n  for <%s>; ", c02Sender, c02Helo, c02Domain, mb)
+	return fmt.Sprintf("Return-Path: <%s>\r\nReceived: from %s ([pipe]) by %s\r\n  for <%s>; ", c02Sender, c02HeloFor(mb), c02Domain, mb)
 }
 
 var c02Mask = bytes.Repeat([]byte("T"), c02TSLen)
@@ -221,7 +234,7 @@ func (st *c02Stack) runCase(c *core.Ctx, m *core.Model, cs *c02Case, topN int) {
 	cas := []string{"kind=" + cs.kind, "mailbox=" + cs.mb, "body=" + clip(fmt.Sprintf("%q", cs.body), 300), "wire=" + clip(fmt.Sprintf("%q", cs.wire), 300),
 		fmt.Sprintf("len(body)=%d len(wire)=%d", len(cs.body), len(cs.wire))}
 	fail := func(oracle, detail string) { c.Fail(oracle, cas, detail, "") }
-	kv := fmt.Sprintf("from=%s mb=%s helo=%s host=%s dom=%s ts=%s", core.HexS(c02Sender), core.HexS(cs.mb), core.HexS(c02Helo), core.HexS("pipe"),
+	kv := fmt.Sprintf("from=%s mb=%s helo=%s host=%s dom=%s ts=%s", core.HexS(c02Sender), core.HexS(cs.mb), core.HexS(c02HeloFor(cs.mb)), core.HexS("pipe"),
 		core.HexS(c02Domain), core.Hex(c02Mask))
 	if cs.tail == "" {
 		cs.tail = "QUIT\r\n"
